@@ -1168,20 +1168,22 @@ theorem serverRole_keepsPot (H : Hs) (tok : Nat) (tt : Option Nat) : (serverRole
   refine ⟨?_, fun _ _ _ _ h => ⟨by simp [serverRole, fired], h⟩, ?_⟩
   · intro u c t b hd
     simp only [serverRole, serverClientHello]
-    cases H.parseClientHello b with
-    | error e => exact ⟨by simp [fired], hd⟩
-    | ok ver =>
-      simp only
-      split
-      · exact ⟨by simp [fired], hd⟩
-      · split
-        · exact ⟨by simp [fired, pot], hd⟩
-        · have hd1 : Direct0 u { c with token := tok, key := some (H.serverReply b tok).1, status := .connecting } := hd
-          have h1 := pot_sendType u { c with token := tok, key := some (H.serverReply b tok).1, status := .connecting } .serverHello (H.serverReply b tok).2 0 none
-          have hd2 := direct0_sendType u _ .serverHello (H.serverReply b tok).2 0 none hd1 (by intro h; cases h)
-          refine ⟨?_, hd2⟩
-          rw [h1]
-          simp [fired, isU, pot]
+    split
+    · exact ⟨by simp [fired], hd⟩
+    · cases H.parseClientHello b with
+      | error e => exact ⟨by simp [fired], hd⟩
+      | ok ver =>
+        simp only
+        split
+        · exact ⟨by simp [fired], hd⟩
+        · split
+          · exact ⟨by simp [fired, pot], hd⟩
+          · have hd1 : Direct0 u { c with token := tok, key := some (H.serverReply b tok).1, status := .connecting } := hd
+            have h1 := pot_sendType u { c with token := tok, key := some (H.serverReply b tok).1, status := .connecting } .serverHello (H.serverReply b tok).2 0 none
+            have hd2 := direct0_sendType u _ .serverHello (H.serverReply b tok).2 0 none hd1 (by intro h; cases h)
+            refine ⟨?_, hd2⟩
+            rw [h1]
+            simp [fired, isU, pot]
   · intro u c t b hd
     simp only [serverRole, serverChallenge]
     cases H.parseChallenge b with
